@@ -120,6 +120,9 @@ func (v V) Coq() string {
 	case "KLimit", "KOffset":
 		return lib.App(v.T, lib.Z(v.N))
 	case "KDistinct":
+		if v.S != "" { // Distinct(q, args...): sets Distinct, then Select(q, args...)
+			return "KDistinct; " + lib.App("KSelect", lib.Str(v.S), CoqList(v.L))
+		}
 		return "KDistinct"
 	case "VField":
 		return lib.App("VField", lib.Str(v.S), lib.Bool(v.B), v.X.Coq())
@@ -617,7 +620,11 @@ func (g Gctx) chain(tx *gorm.DB, calls []V) *gorm.DB {
 		case "KOffset":
 			tx = tx.Offset(int(c.N))
 		case "KDistinct":
-			tx = tx.Distinct()
+			if c.S != "" {
+				tx = tx.Distinct(append([]interface{}{c.S}, g.list(c.L)...)...)
+			} else {
+				tx = tx.Distinct()
+			}
 		case "KClauses":
 			tx = tx.Clauses(g.exprs(c.L)...)
 		default:
